@@ -153,13 +153,15 @@ def run(ctx):
         f = P.fn(STORE + name)
         guards = {'dry_run': [], 'planned': []}
         for (bi, on, ts, els) in switches(f):
-            l = f.root_local(on)
-            if l is not None and f.lname(l) == 'dry_run':
+            # the dry_run test: a branch on a value read from the request's `dry_run` field (by provenance, not by local name)
+            from ..prov import fields_read
+            if any('dry_run' in fields_read(f, on, owner) for owner in (STORE[:-len('ContinuityStore::')] + 'CompactionAutoScheduleV1Request', STORE[:-len('ContinuityStore::')] + 'CompactionAutoV1Request')):
                 guards['dry_run'].append((bi, ts.get('0')))
             o = f.origin(on)
             if o[0] == 'call' and re.search(r'alloc::vec::Vec::<T, A>::is_empty$', o[1].callee):
                 rl = f.root_local(o[1].args[0])
-                if rl is not None and f.lname(rl) == 'planned':
+                # the plan: the Vec of planned cut points (by element type)
+                if rl is not None and 'CompactionPlannedCutPointV1' in f.lty(rl):
                     guards['planned'].append((bi, ts.get('0')))
         for g in conds:
             if not guards[g]:
